@@ -54,7 +54,7 @@ VARIABLES
     creq,      \* [Clients -> request record]
     contacts,  \* [1..MaxX -> contact record]
     nextX,
-    pol,       \* [icc, fd]: the policy switches in force now (IgnoreCC / ForceDefault are their initial values)
+    pol,       \* [icc, fd, age]: the policy settings in force now (IgnoreCC / ForceDefault / DefaultAge are their initial values)
     served,    \* ghost: [Res -> set of versions replaced by a 200 (must never be served again)]
     last       \* ghost: the deliveries made by the last step: set of response records
 
@@ -78,13 +78,13 @@ Init ==
     /\ nextX = 1
     /\ served = [r \in Res |-> {}]
     /\ last = {}
-    /\ pol = [icc |-> IgnoreCC, fd |-> ForceDefault]
+    /\ pol = [icc |-> IgnoreCC, fd |-> ForceDefault, age |-> DefaultAge]
 
 -----------------------------------------------------------------------------
 (* Reference semantics of the cache policy (C03, C04)                        *)
 
 Storable(f) == IF pol.icc THEN "yes" ELSE FormStorable[f]
-Life(f)     == IF pol.fd \/ FormLife[f] = 0 THEN DefaultAge
+Life(f)     == IF pol.fd \/ FormLife[f] = 0 THEN pol.age
                ELSE IF FormLife[f] < 0 THEN 0 ELSE FormLife[f]
 Fresh(e)    == e.present /\ now < e.expires
 
@@ -202,7 +202,7 @@ Reply(x, status, st, lr) ==
                   /\ served' = IF store[r].present /\ store[r].ver # origin[r].ver
                                THEN [served EXCEPT ![r] = @ \cup {store[r].ver}] ELSE served
              ELSE IF renewed
-             THEN /\ store' = [store EXCEPT ![r].expires = now + DefaultAge]
+             THEN /\ store' = [store EXCEPT ![r].expires = now + pol.age]
                   /\ served' = served
              ELSE /\ store' = store /\ served' = served
           /\ creq' = [d \in Clients |->
@@ -218,7 +218,7 @@ Reply(x, status, st, lr) ==
                             IF d = c THEN lbl ELSE "ANY", 0, Life(origin[r].form), "store") : d \in ({c} \cup fol) \ {0}}
                  ELSE IF renewed
                  THEN {Resp(d, 200, store[r].ver, IF d = c THEN "REVALIDATED" ELSE "ANY",
-                            now - store[r].storedAt, DefaultAge, "store") : d \in ({c} \cup fol) \ {0}}
+                            now - store[r].storedAt, pol.age, "store") : d \in ({c} \cup fol) \ {0}}
                  ELSE IF vanished \/ retry416 THEN {}
                  ELSE IF c = 0 \/ refetch THEN {}
                  ELSE {Resp(c, status, IF status \in {200, 206} THEN origin[r].ver ELSE 0, lbl, 0, 0, "relay")}
@@ -273,10 +273,11 @@ Disconnect(c) ==
 
 \* the operator changes the policy switches (dashboard PATCH /api/config or a config reload): nothing else moves; answers
 \* judged from now on are judged by the new values, entries already stored keep the lifetime they were given
-SetPolicy(i, f) ==
+Ages == {DefaultAge, DefaultAge + 2}      \* values default_max_age is switched between
+SetPolicy(i, f, a) ==
     /\ PolicyFlips
-    /\ <<i, f>> # <<pol.icc, pol.fd>>
-    /\ pol' = [icc |-> i, fd |-> f]
+    /\ <<i, f, a>> # <<pol.icc, pol.fd, pol.age>>
+    /\ pol' = [icc |-> i, fd |-> f, age |-> a]
     /\ last' = {}
     /\ UNCHANGED <<now, origin, store, flight, creq, contacts, nextX, served>>
 
@@ -290,7 +291,7 @@ NextFixedPolicy ==
     \/ \E r \in Res, f \in Forms, v \in ValKinds : OriginChange(r, f, v)
     \/ \E c \in Clients : Disconnect(c)
 
-Next == (NextFixedPolicy /\ UNCHANGED pol) \/ \E i, f \in BOOLEAN : SetPolicy(i, f)
+Next == (NextFixedPolicy /\ UNCHANGED pol) \/ \E i, f \in BOOLEAN, a \in Ages : SetPolicy(i, f, a)
 
 Spec == Init /\ [][Next]_vars
 
